@@ -18,7 +18,7 @@ ASSUMPTIONS = ['isosim/dec_udf.py implements the ECMA-167/UDF 2.60 subset summar
 def cfg_fn(r):
     cfg = G.swarm_config(r)
     cfg['udf'] = True
-    return cfg
+    return G.clamp_config(cfg)
 
 
 PROFILE = H.Profile('c10', nops=(3, 26), cfg_fn=cfg_fn,
